@@ -58,6 +58,9 @@ class Hooks:
     def on_step_backs(self, fn, head, backs):
         pass
 
+    def stub_call(self, st, name, args, ins):
+        return None
+
     def on_loop(self, fn, head, info):
         self.log.append(('loop', fn.name, head, info))
 
@@ -440,7 +443,10 @@ class Interp:
         args = [ops.operand(st, t, v) for (t, v) in ins.ops]
         self.hooks.on_call(st, name, args, ins)
         fn = self.mod.functions.get(name)
-        if fn is None:
+        res = self.hooks.stub_call(st, name, args, ins)      # a check may replace a callee by its own summary
+        if res is not None:
+            pass
+        elif fn is None:
             res = self.ext.call(st, name, args, ins)
         else:
             res = self.call_function(st, fn, args, ins)
@@ -574,7 +580,22 @@ class Interp:
             for tgt, sts in o.items():
                 outs.setdefault(tgt, []).extend(sts)
             allbacks.extend(backs)
-        self.hooks.on_step_backs(fn, head, allbacks)
+        # a back-edge state only continues if the loop condition in the head block lets it: evaluate the head block
+        # (it must be side-effect free) and keep the states that flow back into the body
+        hb = fn.blocks[head]
+        for ins in hb.instrs:
+            if ins.op in ('store', 'call', 'invoke', 'load', 'alloca'):
+                raise AnalysisBroken('step mode: the head block of the loop in %s is not a pure condition test' % fn.name)
+        conts = []
+        for b in allbacks:
+            pending = {}
+            o = {}
+            self.exec_block(fn, hb, b, pending, rets, (lp, [], o))
+            for tgt, sts in o.items():
+                outs.setdefault(tgt, []).extend(sts)
+            for sts in pending.values():
+                conts.extend(sts)
+        self.hooks.on_step_backs(fn, head, conts)
         return outs
 
     def run_loop_unrolled(self, fn, fi, lp, entry, rets):
